@@ -9,6 +9,7 @@ package sftp
 
 import (
 	"fmt"
+	"io"
 	"os"
 	"path/filepath"
 	"strings"
@@ -20,7 +21,7 @@ import (
 )
 
 type c15Op struct {
-	kind   string // read write size
+	kind   string // read write size pread pwrite
 	off    int
 	data   string
 	handle int // index of the File used
@@ -110,8 +111,21 @@ func c15Scenario(s c15Spec) explore.Scenario {
 				g.Go(fmt.Sprintf("caller%d", ci), func() {
 					for _, o := range s.callers[ci] {
 						f := files[o.handle]
-						op := lin.Op{Client: ci, Kind: o.kind, Off: o.off, Call: int64(2*vsched.StepNo() + 1)}
+						op := lin.Op{Client: ci, Kind: o.kind, Off: o.off, Handle: o.handle, Call: int64(2*vsched.StepNo() + 1)}
 						switch o.kind {
+						case "pread": // at the File's own position, shared by the goroutines that share the File
+							b := make([]byte, 2)
+							n, err := f.Read(b)
+							if err != nil && !(err == io.EOF && n == 2) {
+								bad = append(bad, fmt.Sprintf("Read(2): n=%d %v", n, err))
+							}
+							op.N, op.Data = 2, string(b[:n])
+						case "pwrite":
+							n, err := f.Write([]byte(o.data))
+							if err != nil || n != len(o.data) {
+								bad = append(bad, fmt.Sprintf("Write(%q): n=%d %v", o.data, n, err))
+							}
+							op.Data = o.data
 						case "read":
 							b := make([]byte, 2)
 							n, err := f.ReadAt(b, int64(o.off))
@@ -209,6 +223,14 @@ func c15Specs(set, server string, alloc bool) []c15Spec {
 		b := mk(1, []c15Op{r(0, 0)}, []c15Op{w(0, "ab", 0)}, []c15Op{w(1, "cd", 0)})
 		b.partial = 1
 		return []c15Spec{a, b}
+	case "pos": // operations at the File's own position, issued by goroutines that share the File
+		pr := func(h int) c15Op { return c15Op{kind: "pread", handle: h} }
+		pw := func(d string, h int) c15Op { return c15Op{kind: "pwrite", data: d, handle: h} }
+		return []c15Spec{
+			mk(1, []c15Op{pr(0)}, []c15Op{pr(0)}),
+			mk(1, []c15Op{pw("ab", 0)}, []c15Op{pw("cd", 0)}, []c15Op{sz(0)}),
+			mk(2, []c15Op{pr(0), r(2, 1)}, []c15Op{pw("ab", 0), pr(1)}),
+		}
 	case "2x1":
 		return []c15Spec{
 			mk(1, []c15Op{w(0, "ab", 0)}, []c15Op{r(0, 0)}),
@@ -263,7 +285,7 @@ func init() {
 	reg.Prop(&reg.Property{
 		ID:    "C15",
 		Level: "model_checking",
-		Rule: "the instrumented client and the real server in one scheduled system, 2-3 caller goroutines x 1-2 single-packet operations (ReadAt/WriteAt of 2 bytes inside a 4-byte file, Stat) on one or two handles of the same file: " +
+		Rule: "the instrumented client and the real server in one scheduled system, 2-3 caller goroutines x 1-2 single-packet operations (ReadAt/WriteAt of 2 bytes inside a 4-byte file, Stat, and Read/Write of 2 bytes at the position of a File shared by the callers) on one or two handles of the same file: " +
 			"all schedules with at most d deviations; every complete execution's call/return history (timestamps = scheduler step numbers) is checked by porcupine against the sequential byte-array model; distinct = distinct schedules",
 		Assumptions: []string{"backing store ReadAt/WriteAt atomic (one scheduling point each; for the os-backed server the kernel's pread/pwrite)", "W and deviation bounds as reported", "handles are opened through Client.OpenFile before the callers start"},
 		Jobs: func(tier string) []reg.Job {
@@ -275,20 +297,23 @@ func init() {
 				return reg.Job{Part: "C15/lin", Build: build, Args: a, Shards: 16, BudgetS: budget, Label: label}
 			}
 			if tier == "thorough" {
-				return []reg.Job{
+				return withPolicies(tier, []reg.Job{
 					j("rs W=2 2x2 db3", "instr-w2", "rs", "2x2", 3, 900, false),
 					j("rs W=2 3x1 db3 alloc", "instr-w2", "rs", "3x1", 3, 900, true),
 					j("rs W=8 2x2 db2", "instr", "rs", "2x2", 2, 600, false),
 					j("os W=2 2x2 db3 alloc", "instr-w2", "os", "2x2", 3, 900, true),
 					j("rs W=2 store read fails part-way db3", "instr-w2", "rs", "partial", 3, 600, false),
-				}
+					j("rs W=2 Read/Write at the shared File position db3", "instr-w2", "rs", "pos", 3, 600, false),
+					j("os W=2 Read/Write at the shared File position db3", "instr-w2", "os", "pos", 3, 600, false),
+				}, nil) // no state cache: the oracle reads the global step counter (real-time order of calls and returns)
 			}
-			return []reg.Job{
+			return withPolicies(tier, []reg.Job{
 				j("rs W=2 2x2 db2", "instr-w2", "rs", "2x2", 2, 100, false),
 				j("rs W=2 3x1 db2 alloc", "instr-w2", "rs", "3x1", 2, 100, true),
 				j("os W=2 2x1 db2 alloc", "instr-w2", "os", "2x1", 2, 60, true),
 				j("rs W=2 store read fails part-way db2", "instr-w2", "rs", "partial", 2, 100, false),
-			}
+				j("rs W=2 Read/Write at the shared File position db2", "instr-w2", "rs", "pos", 2, 100, false),
+			}, nil)
 		},
 	})
 }
